@@ -223,7 +223,8 @@ struct Det {
     owed: bool,
     // a flush happened since then
     flushed: bool,
-    // the wake was reported to the loop: a later flush said "notified" or the fd was seen readable
+    // the loop will not block in this iteration: a flush since the last `run` said "notified" (zero timeout) or the
+    // fd was seen readable (sticky until the next `run`: the loop's wait returns at once)
     reported: bool,
     drv_name: String,
 }
@@ -278,13 +279,12 @@ fn det_op(d: &mut Det, line: &str, ex: &mut Exec) -> String {
         ["wake"] => {
             d.main_waker.wake_by_ref();
             d.owed = true;
-            d.reported = false;
             "ok".into()
         }
         ["flush"] => {
             let n = d.b.rt.flush();
             d.flushed = true;
-            if n && d.owed {
+            if n {
                 d.reported = true;
             }
             if n { "flush=notified".into() } else { "flush=idle".into() }
@@ -298,7 +298,7 @@ fn det_op(d: &mut Det, line: &str, ex: &mut Exec) -> String {
         },
         ["fd"] => {
             let r = readable(d.b.wait_fd(), 0);
-            if r && d.owed {
+            if r {
                 d.reported = true;
             }
             // the external loop would now wait on this descriptor without a timeout (nothing hot, flush said idle)
@@ -325,7 +325,6 @@ fn det_op(d: &mut Det, line: &str, ex: &mut Exec) -> String {
             match rx.recv_timeout(Duration::from_secs(10)) {
                 Ok(()) => {
                     d.owed = true;
-                    d.reported = false;
                     "ok".into()
                 }
                 Err(_) => {
